@@ -71,6 +71,9 @@ pub enum Op {
     Block { txs: Vec<TxSel> },
     /// connect n empty blocks
     Empty { n: u8 },
+    /// connect many empty blocks (a closed channel whose outputs are only partly swept grows old:
+    /// more than 2016 blocks)
+    EmptyMany { n: u16 },
     /// connect empty blocks until the reference event of the k-th ready channel (its deepest
     /// terminal event, else its unilateral close, else its funding, else its creation) has
     /// REQUIRED_CONFIRMATIONS + rel confirmations
@@ -838,6 +841,18 @@ impl<'a> Run<'a> {
                     self.observe(i, "add_block")?;
                 }
             }
+            Op::EmptyMany { n } => {
+                let cap = self.block_cap;
+                self.block_cap = cap.saturating_add(*n as u32);
+                let done = self.mine_empty(*n as u32);
+                self.block_cap = cap.saturating_add(done);
+                self.push_shape("EM".into());
+                self.st.class("aged_beyond_2016_blocks");
+                self.note(i, json!({"empty_blocks": done}));
+                if !self.stopped {
+                    self.observe(i, "add_block")?;
+                }
+            }
             Op::Bury { k, rel } => {
                 let Some(m) = self.ready_pick(*k) else { return Ok(()) };
                 let tip = self.sim.height();
@@ -1197,8 +1212,9 @@ fn life_cycle() -> impl Strategy<Value = Vec<Op>> {
         (open_spec(), kind, forget_at, reorg, any::<bool>(), any::<bool>()),
         (rel(), 0u8..9, 0u8..8, reuse, prop::bool::weighted(0.3), prop_oneof![12 => Just(0u8), 2 => Just(1u8), 2 => Just(2u8), 1 => Just(3u8), 1 => Just(4u8), 1 => Just(u8::MAX)]),
         proptest::collection::vec((any::<u16>(), extra_op()), 0..5),
+        prop::bool::weighted(0.2),
     )
-        .prop_map(|((mut spec, kind, forget_at, reorg, same_block, remine), (rel, more, restarts, reuse, second, late), extras)| {
+        .prop_map(|((mut spec, kind, forget_at, reorg, same_block, remine), (rel, more, restarts, reuse, second, late), extras, aged)| {
             // room below and above the id for reuse attempts
             spec.dbid = spec.dbid.clamp(2, 4);
             let mut ops: Vec<Op> = vec![];
@@ -1278,6 +1294,10 @@ fn life_cycle() -> impl Strategy<Value = Vec<Op>> {
                 }
             }
             ops.push(Op::Bury { k, rel });
+            // a unilateral close whose outputs are not all swept grows old (beyond 2016 blocks)
+            if aged && matches!(kind, CloseKind::HolderMainOnly | CloseKind::CpMainOnly | CloseKind::HolderUnswept | CloseKind::CpUnswept) {
+                ops.push(Op::EmptyMany { n: (2016 - 100 + 4 + rel as i32) as u16 });
+            }
             // a reorg of the burying blocks before the signer is asked to prune: a few blocks, or
             // (rarely) everything down to below the terminal event
             if late == u8::MAX {
